@@ -140,7 +140,10 @@ def check(ctx):
     # ---- R2 ----------------------------------------------------------------------------
     ft = A.method('_find_transformation')
     rets = [norm(s.value) for s in walk_own(ft.node) if isinstance(s, ast.Return)]
-    ctx.inst('R2', ft, 'solution-is-rotvec-pose', rets == ['cls._Pose_from_params(result.x)'], 'the fitted parameters become a pose through _Pose_from_params')
+    # whatever the local that holds the solver's result is called: it is bound to the least_squares call and its .x is converted
+    solv = [norm(s_.targets[0]) for s_ in walk_own(ft.node) if isinstance(s_, ast.Assign) and isinstance(s_.value, ast.Call) and norm(s_.value.func).endswith('least_squares')
+            and isinstance(s_.targets[0], ast.Name)]
+    ctx.inst('R2', ft, 'solution-is-rotvec-pose', len(solv) == 1 and rets == ['cls._Pose_from_params(%s.x)' % solv[0]], 'the fitted parameters become a pose through _Pose_from_params')
     pp = A.method('_Pose_from_params')
     rets = [norm(s.value) for s in walk_own(pp.node) if isinstance(s, ast.Return)]
     ctx.inst('R2', pp, 'params->from_rot_vec', rets == ['Pose.from_rot_vec(R_vec=%s[:3], t_vec=%s[3:])' % (pp.params[1], pp.params[1])], '6 parameters = rotation vector + translation; returns %s' % rets)
